@@ -561,7 +561,7 @@ FIXED += [
 FIXED += [
     ('F79-rename-two-columns-same-new-name', 'C14', 'rename refuses two columns mapped to the same new name',
      "rename({'a': 'z', 'b': 'z'}) was accepted: the duplicate check compared the new names only with the columns that are not renamed; one column was lost from the table's names and the Polars export raised DuplicateError (reported by a batch-6 sub-agent; C14 offender rename_dup_new)",
-     json.loads('{"tables": [{"name": "t0", "cols": [["id", "int64"], ["x", "datetime"], ["b", "bool"]], "rows": [[1, null, false], [2, null, false], [3, null, false], [4, null, false], [5, null, true], [6, null, false], [7, null, false]]}], "steps": [{"out": "v0", "verb": "source", "table": "t0"}], "result": "v0", "mode": "reject", "offender": {"kind": "verb", "which": "rename_dup_new", "expect": "ValueError", "anycol": ["col", {"v": "v0", "n": "id"}]}}')),
+     json.loads('{"tables": [{"name": "t0", "cols": [["id", "int64"], ["x", "datetime"], ["b", "bool"]], "rows": [[1, null, false], [2, null, false], [3, null, false], [4, null, false], [5, null, true], [6, null, false], [7, null, false]]}], "steps": [{"out": "v0", "verb": "source", "table": "t0"}], "result": "v0", "validate": "check", "mode": "reject", "offender": {"kind": "verb", "which": "rename_dup_new", "expect": "ValueError", "anycol": ["col", {"v": "v0", "n": "id"}]}}')),
 ]
 
 
